@@ -1,1 +1,290 @@
-// shared helpers of the hx-ec executors
+//! Shared pieces of the eventual-consistency executors: a fault-injecting `Storage`
+//! wrapper around `MemStore`, observers of a keyspace actor (set + store), and helpers to
+//! build the crate's messages.
+
+use std::marker::PhantomData;
+use std::sync::Arc;
+
+use datacake_crdt::{HLCTimestamp, Key, OrSWotSet};
+use datacake_eventual_consistency::test_utils::{MemStore, MemStoreError};
+use datacake_eventual_consistency::verif::*;
+use datacake_eventual_consistency::{BulkMutationError, Document, DocumentMetadata, Storage};
+use parking_lot::Mutex;
+pub const KS: &str = "ks";
+pub const PROBE_KEY: u64 = 0xFFFF_FFFF_FFFF_FFFE;
+
+/// What the next storage mutation call does.
+#[derive(Clone, Debug, PartialEq)]
+pub enum Plan {
+    Ok,
+    /// fail without writing anything
+    Fail,
+    /// bulk call: write exactly the items whose position is marked true, then fail
+    /// reporting their ids as successful
+    Partial(Vec<bool>),
+    /// perform the write, then never return (the node is killed in the middle of the request)
+    Park,
+}
+
+pub struct Faulty {
+    pub inner: MemStore,
+    plan: Mutex<Plan>,
+    pub calls: Mutex<u64>,
+}
+
+impl Default for Faulty {
+    fn default() -> Self {
+        Self {
+            inner: MemStore::default(),
+            plan: Mutex::new(Plan::Ok),
+            calls: Mutex::new(0),
+        }
+    }
+}
+
+impl Faulty {
+    pub fn set_plan(&self, p: Plan) {
+        *self.plan.lock() = p;
+    }
+    fn take_plan(&self) -> Plan {
+        *self.calls.lock() += 1;
+        std::mem::replace(&mut *self.plan.lock(), Plan::Ok)
+    }
+}
+
+fn injected() -> MemStoreError {
+    MemStoreError(anyhow::anyhow!("injected storage failure"))
+}
+
+#[async_trait::async_trait]
+impl Storage for Faulty {
+    type Error = MemStoreError;
+    type DocsIter = <MemStore as Storage>::DocsIter;
+    type MetadataIter = <MemStore as Storage>::MetadataIter;
+
+    async fn get_keyspace_list(&self) -> Result<Vec<String>, Self::Error> {
+        self.inner.get_keyspace_list().await
+    }
+
+    async fn iter_metadata(&self, keyspace: &str) -> Result<Self::MetadataIter, Self::Error> {
+        self.inner.iter_metadata(keyspace).await
+    }
+
+    async fn remove_tombstones(
+        &self,
+        keyspace: &str,
+        keys: impl Iterator<Item = Key> + Send,
+    ) -> Result<(), BulkMutationError<Self::Error>> {
+        let keys: Vec<Key> = keys.collect();
+        match self.take_plan() {
+            Plan::Ok => self.inner.remove_tombstones(keyspace, keys.into_iter()).await,
+            Plan::Fail => Err(BulkMutationError::empty_with_error(injected())),
+            Plan::Partial(mask) => {
+                let done: Vec<Key> = keys
+                    .iter()
+                    .enumerate()
+                    .filter(|(i, _)| mask.get(*i).copied().unwrap_or(false))
+                    .map(|(_, k)| *k)
+                    .collect();
+                self.inner.remove_tombstones(keyspace, done.clone().into_iter()).await?;
+                Err(BulkMutationError::new(injected(), done))
+            },
+            Plan::Park => {
+                self.inner.remove_tombstones(keyspace, keys.into_iter()).await?;
+                std::future::pending::<()>().await;
+                unreachable!()
+            },
+        }
+    }
+
+    async fn put(&self, keyspace: &str, document: Document) -> Result<(), Self::Error> {
+        match self.take_plan() {
+            Plan::Ok => self.inner.put(keyspace, document).await,
+            Plan::Park => {
+                self.inner.put(keyspace, document).await?;
+                std::future::pending::<()>().await;
+                unreachable!()
+            },
+            _ => Err(injected()),
+        }
+    }
+
+    async fn multi_put(
+        &self,
+        keyspace: &str,
+        documents: impl Iterator<Item = Document> + Send,
+    ) -> Result<(), BulkMutationError<Self::Error>> {
+        let docs: Vec<Document> = documents.collect();
+        match self.take_plan() {
+            Plan::Ok => self.inner.multi_put(keyspace, docs.into_iter()).await,
+            Plan::Fail => Err(BulkMutationError::empty_with_error(injected())),
+            Plan::Partial(mask) => {
+                let mut done = Vec::new();
+                for (i, d) in docs.into_iter().enumerate() {
+                    if mask.get(i).copied().unwrap_or(false) {
+                        done.push(d.id());
+                        self.inner.put(keyspace, d).await.map_err(BulkMutationError::empty_with_error)?;
+                    }
+                }
+                Err(BulkMutationError::new(injected(), done))
+            },
+            Plan::Park => {
+                self.inner.multi_put(keyspace, docs.into_iter()).await?;
+                std::future::pending::<()>().await;
+                unreachable!()
+            },
+        }
+    }
+
+    async fn mark_as_tombstone(
+        &self,
+        keyspace: &str,
+        doc_id: Key,
+        timestamp: HLCTimestamp,
+    ) -> Result<(), Self::Error> {
+        match self.take_plan() {
+            Plan::Ok => self.inner.mark_as_tombstone(keyspace, doc_id, timestamp).await,
+            Plan::Park => {
+                self.inner.mark_as_tombstone(keyspace, doc_id, timestamp).await?;
+                std::future::pending::<()>().await;
+                unreachable!()
+            },
+            _ => Err(injected()),
+        }
+    }
+
+    async fn mark_many_as_tombstone(
+        &self,
+        keyspace: &str,
+        documents: impl Iterator<Item = DocumentMetadata> + Send,
+    ) -> Result<(), BulkMutationError<Self::Error>> {
+        let docs: Vec<DocumentMetadata> = documents.collect();
+        match self.take_plan() {
+            Plan::Ok => self.inner.mark_many_as_tombstone(keyspace, docs.into_iter()).await,
+            Plan::Fail => Err(BulkMutationError::empty_with_error(injected())),
+            Plan::Partial(mask) => {
+                let mut done = Vec::new();
+                for (i, d) in docs.into_iter().enumerate() {
+                    if mask.get(i).copied().unwrap_or(false) {
+                        done.push(d.id);
+                        self.inner
+                            .mark_as_tombstone(keyspace, d.id, d.last_updated)
+                            .await
+                            .map_err(BulkMutationError::empty_with_error)?;
+                    }
+                }
+                Err(BulkMutationError::new(injected(), done))
+            },
+            Plan::Park => {
+                self.inner.mark_many_as_tombstone(keyspace, docs.into_iter()).await?;
+                std::future::pending::<()>().await;
+                unreachable!()
+            },
+        }
+    }
+
+    async fn get(&self, keyspace: &str, doc_id: Key) -> Result<Option<Document>, Self::Error> {
+        self.inner.get(keyspace, doc_id).await
+    }
+
+    async fn multi_get(
+        &self,
+        keyspace: &str,
+        doc_ids: impl Iterator<Item = Key> + Send,
+    ) -> Result<Self::DocsIter, Self::Error> {
+        self.inner.multi_get(keyspace, doc_ids).await
+    }
+}
+
+pub type Set2 = OrSWotSet<NUM_SOURCES>;
+pub type Pairs = Vec<(u64, u64)>;
+
+fn canon(v: Vec<(u64, HLCTimestamp)>) -> Pairs {
+    let mut p: Pairs = v.into_iter().map(|(k, t)| (k, t.as_u64())).collect();
+    p.sort();
+    p
+}
+
+pub fn show_pairs(p: &Pairs) -> String {
+    let v: Vec<String> = p.iter().map(|(k, t)| format!("{:x}={:x}", k, t)).collect();
+    format!("[{}]", v.join(","))
+}
+
+/// (live entries, tombstones) of a set, through the public API.
+pub fn set_contents(s: &Set2) -> (Pairs, Pairs) {
+    let (m, r) = Set2::default().diff(s);
+    (canon(m), canon(r))
+}
+
+/// The set held by a keyspace actor, as a peer would obtain it (Serialize + decode).
+pub async fn actor_set<S: Storage>(group: &KeyspaceGroup<S>, keyspace: &str) -> Set2 {
+    let ks = group.get_or_create_keyspace(keyspace).await;
+    let bytes = ks.send(Serialize).await.expect("serialize");
+    rkyv::from_bytes::<Set2>(&bytes).expect("decode set")
+}
+
+/// `E[..]D[..]B[..]` exactly as the model driver prints a set.
+pub fn show_set(s: &Set2, probes: &[u64]) -> String {
+    let (e, d) = set_contents(s);
+    let b: String = probes
+        .iter()
+        .map(|t| if s.will_apply(PROBE_KEY, HLCTimestamp::from_u64(*t)) { '0' } else { '1' })
+        .collect();
+    format!("E{}D{}B[{}]", show_pairs(&e), show_pairs(&d), b)
+}
+
+/// `M[k=t.0|1,..]G[k=t.p,..]`: the store's metadata and live documents (payload = first
+/// 8 bytes little-endian, the executors only write such payloads).
+pub async fn show_store<S: Storage>(st: &S, keyspace: &str) -> String {
+    let mut meta: Vec<(u64, u64, bool)> = match st.iter_metadata(keyspace).await {
+        Ok(it) => it.map(|(k, t, d)| (k, t.as_u64(), d)).collect(),
+        Err(_) => Vec::new(),
+    };
+    meta.sort();
+    let mut docs = Vec::new();
+    for (k, _, dead) in &meta {
+        let got = st.get(keyspace, *k).await.ok().flatten();
+        match (got, dead) {
+            (Some(d), _) => docs.push(format!("{:x}={:x}.{:x}", k, d.last_updated().as_u64(), payload_of(&d))),
+            (None, false) => docs.push(format!("{:x}=missing", k)),
+            (None, true) => {},
+        }
+    }
+    let m: Vec<String> = meta.iter().map(|(k, t, d)| format!("{:x}={:x}.{}", k, t, *d as u8)).collect();
+    format!("M[{}]G[{}]", m.join(","), docs.join(","))
+}
+
+pub fn payload_of(d: &Document) -> u64 {
+    let mut b = [0u8; 8];
+    let n = d.data().len().min(8);
+    b[..n].copy_from_slice(&d.data()[..n]);
+    u64::from_le_bytes(b)
+}
+
+pub fn mk_doc(k: u64, t: u64, p: u64) -> Document {
+    Document::new(k, HLCTimestamp::from_u64(t), p.to_le_bytes().to_vec())
+}
+
+pub fn mk_meta(k: u64, t: u64) -> DocumentMetadata {
+    DocumentMetadata::new(k, HLCTimestamp::from_u64(t))
+}
+
+pub fn msg_set<S: Storage>(src: usize, d: Document) -> Set<S> {
+    Set { source: src, doc: d, ctx: None, _marker: PhantomData }
+}
+pub fn msg_multi_set<S: Storage>(src: usize, ds: Vec<Document>) -> MultiSet<S> {
+    MultiSet { source: src, docs: smallvec::SmallVec::from_vec(ds), ctx: None, _marker: PhantomData }
+}
+pub fn msg_del<S: Storage>(src: usize, m: DocumentMetadata) -> Del<S> {
+    Del { source: src, doc: m, _marker: PhantomData }
+}
+pub fn msg_multi_del<S: Storage>(src: usize, ms: Vec<DocumentMetadata>) -> MultiDel<S> {
+    MultiDel { source: src, docs: smallvec::SmallVec::from_vec(ms), _marker: PhantomData }
+}
+pub fn msg_purge<S: Storage>() -> PurgeDeletes<S> {
+    PurgeDeletes(PhantomData)
+}
+
+pub fn arc<T>(x: T) -> Arc<T> {
+    Arc::new(x)
+}
